@@ -898,6 +898,15 @@ impl MachineState {
                             // since string does not lie in the heap.
                             match (v1, v2) {
                                 (PStrContinuable::TailIndex(tail_idx), PStrContinuable::TailIndex(_)) => {
+                                    if let Some(pos) = string_cursor.find('\u{0}') {
+                                        // the literal stopped at a NUL of its own, not at its
+                                        // end: the NUL and what follows it are matched against
+                                        // the cells after the heap segment.
+                                        h = tail_idx + cell_index!(pstr_loc);
+                                        string_cursor = &string_cursor[pos ..];
+                                        continue;
+                                    }
+
                                     self.s = HeapPtr::HeapCell(tail_idx + cell_index!(pstr_loc));
                                     self.s_offset = 0;
                                     self.mode = MachineMode::Read;
@@ -909,6 +918,12 @@ impl MachineState {
                                     string_cursor = &string_cursor[pos ..];
                                 }
                                 (PStrContinuable::PStrOffset(pos), PStrContinuable::TailIndex(_)) => {
+                                    if pos < string_cursor.len() {
+                                        // a NUL of the literal against another character.
+                                        self.fail = true;
+                                        break;
+                                    }
+
                                     self.s = HeapPtr::PStr(pstr_loc);
                                     self.s_offset = pos;
                                     self.mode = MachineMode::Read;
